@@ -293,3 +293,117 @@ func VerifStyleWords(s Style) [3]uint32 { return [3]uint32{s.fg, s.bg, s.underli
 
 // Mode returns the text read mode of the wrapped terminal.
 func (v *VerifTerm) Mode() TextReadMode { return v.T.textReadMode }
+
+// Additions to verif_hooks.go for the span-level correspondence check
+// (harness-span).  They run the row-splicing primitives of screen.go on a line
+// detached from any screen, or on a one-row screen for the methods.
+
+func verifLineOf(spans []VerifSpan, cache int, extraCap int) spanLine {
+	src := verifToSpans(spans)
+	// exact control over the capacity: extraCap = 0 forces replaceRange to
+	// allocate whenever the row grows, a large value makes it splice in place
+	dst := make([]Span, len(src), len(src)+extraCap)
+	copy(dst, src)
+	if len(src) == 0 && extraCap == 0 {
+		dst = nil
+	}
+	return spanLine{spans: dst, width: cache}
+}
+
+func verifStyleOf(fg, bg, ul uint32) Style { return Style{fg: fg, bg: bg, underlineColor: ul} }
+
+// VerifReplaceRangeCap is VerifReplaceRange with a chosen spare capacity.
+func VerifReplaceRangeCap(spans []VerifSpan, cache int, x, n int, insert VerifSpan, mode TextReadMode, extraCap int) ([]VerifSpan, int) {
+	l := verifLineOf(spans, cache, extraCap)
+	replaceRange(&l, x, n, verifToSpans([]VerifSpan{insert})[0], mode)
+	return verifFromSpans(l.spans), l.width
+}
+
+func VerifInsertSpan(spans []VerifSpan, cache int, x int, insert VerifSpan, mode TextReadMode) ([]VerifSpan, int) {
+	l := verifLineOf(spans, cache, 1)
+	insertSpan(&l, x, verifToSpans([]VerifSpan{insert})[0], mode)
+	return verifFromSpans(l.spans), l.width
+}
+
+func VerifTruncateLine(spans []VerifSpan, cache int, width int, mode TextReadMode) ([]VerifSpan, int) {
+	l := verifLineOf(spans, cache, 1)
+	truncateLine(&l, width, mode)
+	return verifFromSpans(l.spans), l.width
+}
+
+func VerifResizeLine(spans []VerifSpan, cache int, width int, fg, bg, ul uint32, mode TextReadMode) ([]VerifSpan, int) {
+	l := verifLineOf(spans, cache, 1)
+	resizeLine(&l, width, verifStyleOf(fg, bg, ul), mode)
+	return verifFromSpans(l.spans), l.width
+}
+
+func VerifLineCellWidth(spans []VerifSpan, cache int) int {
+	l := verifLineOf(spans, cache, 0)
+	return lineCellWidth(&l)
+}
+
+func VerifByteIndexForCell(text []byte, off int, mode TextReadMode) (int, int) {
+	return byteIndexForCell(text, off, mode)
+}
+
+func VerifClustersFitting(text []byte, avail int, mode TextReadMode) (int, int) {
+	n, w, _ := clustersFitting(string(text), avail, -1, mode)
+	return n, w
+}
+
+// verifRow builds a one-row span screen of width w around a detached line.
+func verifRow(spans []VerifSpan, cache int, w int, fg, bg, ul uint32, mode TextReadMode) *spanScreen {
+	return &spanScreen{
+		lines:    []spanLine{verifLineOf(spans, cache, 1)},
+		frontend: &EmptyFrontend{},
+		style:    verifStyleOf(fg, bg, ul),
+		size:     Pos{X: w, Y: 1},
+		textMode: mode,
+	}
+}
+
+func VerifRowDeleteChars(spans []VerifSpan, cache int, w int, fg, bg, ul uint32, x, n int, mode TextReadMode) ([]VerifSpan, int) {
+	s := verifRow(spans, cache, w, fg, bg, ul, mode)
+	s.deleteChars(x, 0, n, CRClear)
+	return verifFromSpans(s.lines[0].spans), s.lines[0].width
+}
+
+// VerifRowWriteSpan runs rawWriteSpan; panicked reports the range panic.
+func VerifRowWriteSpan(spans []VerifSpan, cache int, w int, x int, insert VerifSpan, mode TextReadMode) (out []VerifSpan, width int, panicked bool) {
+	s := verifRow(spans, cache, w, 0, 0, 0, mode)
+	defer func() {
+		if recover() != nil {
+			out, width, panicked = nil, 0, true
+		}
+	}()
+	s.rawWriteSpan(x, 0, verifToSpans([]VerifSpan{insert})[0], CRText)
+	return verifFromSpans(s.lines[0].spans), s.lines[0].width, false
+}
+
+func VerifRowWriteRune(spans []VerifSpan, cache int, w int, fg, bg, ul uint32, x int, r rune, rw int, mode TextReadMode) (out []VerifSpan, width int, panicked bool) {
+	s := verifRow(spans, cache, w, fg, bg, ul, mode)
+	defer func() {
+		if recover() != nil {
+			out, width, panicked = nil, 0, true
+		}
+	}()
+	s.rawWriteRune(x, 0, r, rw, CRText)
+	return verifFromSpans(s.lines[0].spans), s.lines[0].width, false
+}
+
+func VerifRowStyledLine(spans []VerifSpan, cache int, w int, x, cw int, mode TextReadMode) ([]VerifSpan, int) {
+	s := verifRow(spans, cache, w, 0, 0, 0, mode)
+	ln := s.StyledLine(x, cw, 0)
+	return verifFromSpans(ln.Spans), ln.Width
+}
+
+func VerifRowLine(spans []VerifSpan, cache int, w int) string {
+	s := verifRow(spans, cache, w, 0, 0, 0, TextReadModeRune)
+	return s.Line(0)
+}
+
+// VerifExpandSpans is the cell projection of a list of spans (as Snapshot computes it).
+func VerifExpandSpans(spans []VerifSpan, mode TextReadMode) ([]VerifCell, bool) {
+	cells, ok, zero, _ := verifExpandSpans(verifToSpans(spans), mode)
+	return cells, ok && zero == 0
+}
